@@ -8,6 +8,12 @@ PY = "/venv/bin/python"
 
 # id -> (technique, level text, level note, design ref)
 CHECKS = {
+    "C14": (
+        "Hypothesis over identifier strings rich in XPath/XML-significant characters x every name/id carrier and lookup, with decoy objects carrying near-miss identifiers; oracle = exact XML attribute of the returned object, no exception, also after save+reload",
+        "For 18 carriers (tables, styles, bookmarks, reference marks and references, frames, draw pages, variables, user fields, user-defined fields, named ranges, notes, annotations, links, sections, change ids, manifest paths, user-defined metadata) an object is stored under a generated identifier next to decoys; each lookup entry point must return exactly that object and never raise, in memory and after reload.",
+        "Identity judged on the stored XML attribute; setters that reject an identifier end the case; one known finding (style named 'false') excluded by a scope predicate.",
+        "DESIGN.md 3/C14",
+    ),
     "C20": (
         "Hypothesis over document histories (heading sequences, TOC position, outline level, fills interleaved with heading edits) against an independent outline-numbering model read from the lxml tree",
         "For generated heading sequences (levels 1..10 in any order, skipped levels, texts with blanks/TAB/spans) the index body after every fill must list exactly the headings within the outline level, each as '<number> <heading text>' per an independent counter model, keep the title, be idempotent under a second fill, and agree with the odfdo-headers tool output.",
